@@ -147,7 +147,7 @@ class Run:
         elif st in ("error", "timeout"):
             p["errors"] += 1
             self.cov["inconclusive"].append(
-                {"part": part, "case": _short(sample, 200),
+                {"part": part, "case": _short(sample if sample is not None else outcome.get("item"), 200),
                  "note": outcome.get("error", st)})
         else:
             p["skipped"] += 1
